@@ -40,13 +40,22 @@ Definition view_eqb (a b : client_obs aval aexn) : bool :=
 (* one case: the input (mode, initial total, calls), which variant of the submission the
    implementation currently shows (probed by the harness), and the implementation's
    observations of the batch run and of the one-by-one run on an identical object *)
-Record case1 := { k_oneway : bool; k_submit_broken : bool; k_s0 : Z; k_calls : list acall;
+Record case1 := { k_oneway : bool; k_submit_broken : bool;
+                  k_excval_breaks_reply : bool;   (* probed: this serializer cannot put a returned exception object into a batch reply *)
+                  k_s0 : Z; k_calls : list acall;
                  k_b_state : Z; k_b_log : list acall; k_b_view : client_obs aval aexn;
                  k_q_state : Z; k_q_log : list acall; k_q_outs : list (outcome aval aexn) }.
 
+(* open finding batch-returned-exception-unserializable (marshal): the calls run, but a result list holding an
+   exception object as a VALUE cannot be serialised, so the request is answered with an error the model has no name for *)
+Definition has_excval (l : list (outcome aval aexn)) : bool :=
+  existsb (fun o => match o with Ok (VExc _) => true | _ => false end) l.
+Definition quirk_view (q : bool) (o : client_obs aval aexn) : client_obs aval aexn :=
+  match o with CStream l => if q && has_excval l then CRaised ESubmit else o | _ => o end.
 Definition model_batch (c : case1) : batch_run Z acall aval aexn :=
   if k_submit_broken c then run_batch_submit_fails ESubmit (k_calls c) (k_s0 c)
-  else acc_batch loop_breaks (k_oneway c) (k_calls c) (k_s0 c).
+  else let b := acc_batch loop_breaks (k_oneway c) (k_calls c) (k_s0 c) in
+       {| b_state := b_state b; b_log := b_log b; b_obs := quirk_view (k_excval_breaks_reply c) (b_obs b) |}.
 Definition model_seq (c : case1) : run Z acall aval aexn := acc_seq (k_calls c) (k_s0 c).
 
 Definition check_one (c : case1) : bool :=
